@@ -58,6 +58,10 @@ func init() {
 		s, arr := u.freshSlice(st, rvT, ln, "mapkeys")
 		u.fn("rv_key", []string{"RV", "Int"}, "RV")
 		u.fact(fmt.Sprintf("(forall ((qi Int)) (! (= (select %s qi) (rv_key %s qi)) :pattern ((select %s qi))))", arr, v, arr))
+		u.fn("rv_keyidx", []string{"RV", "Iface"}, "Int")
+		u.fn("rv_mapval", []string{"RV", "Iface"}, "RV")
+		// MapKeys enumerates every key for which MapIndex yields a valid value
+		u.fact(fmt.Sprintf("(forall ((qx Iface)) (! (=> (rv_valid (rv_mapval %s qx)) (and (<= 0 (rv_keyidx %s qx)) (< (rv_keyidx %s qx) (rv_len %s)) (= (rv_iface (rv_key %s (rv_keyidx %s qx))) qx))) :pattern ((rv_mapval %s qx))))", v, v, v, v, v, v, v))
 		u.fact(fmt.Sprintf("(forall ((qi Int)) (! (and (rv_valid (rv_key %s qi)) (rv_iskey %s (rv_key %s qi)) (= (rv_type (rv_key %s qi)) (keyT (rv_type %s)))) :pattern ((rv_key %s qi))))", v, v, v, v, v, v))
 		return term(s, resTy)
 	})
@@ -66,7 +70,8 @@ func init() {
 		v, k := args[0].T, args[1].T
 		rvDecls(u)
 		u.libpre(fr, st, "reflect.Value.MapIndex", and(fmt.Sprintf("(= %s 21)", rvKind(u, v)), app("rv_valid", k), u.assignableDef(app("rv_type", k), fmt.Sprintf("(keyT (rv_type %s))", v))), pos, "reflect: MapIndex on a non-map or with a key of the wrong type panics")
-		r := app("rv_mapindex", v, k)
+		u.fn("rv_mapval", []string{"RV", "Iface"}, "RV")
+		r := app("rv_mapval", v, app("rv_iface", k))
 		u.fact(implies(app("rv_iskey", v, k), app("rv_valid", r)))
 		u.fact(implies(app("rv_valid", r), eq(app("rv_type", r), fmt.Sprintf("(elemT (rv_type %s))", v))))
 		return rvRet(r, resTy)
@@ -220,6 +225,17 @@ func init() {
 		tt := u.tagOfRtype(recv.T)
 		u.libpre(fr, st, "reflect.Type.Elem", kindIn(app("kind", tt), 17, 18, 21, 22, 23), pos, "reflect: Elem of a type without element type panics")
 		return term(u.rtypeOfTag(app("elemT", tt)), resTy)
+	})
+	regI("(reflect.Type).AssignableTo", "Type.AssignableTo(u): identical types or u is an interface type (over-approximated for non-empty interfaces)", func(fr *Frame, st *State, recv *Val, args []*Val, pos token.Pos, resTy types.Type) *Val {
+		u := fr.u
+		u.libpre(fr, st, "reflect.Type.AssignableTo", fmt.Sprintf("(distinct (ityp %s) T_nil)", args[0].T), pos, "reflect: nil type passed to AssignableTo")
+		return term(u.assignableDef(u.tagOfRtype(recv.T), u.tagOfRtype(args[0].T)), tBool)
+	})
+	regI("(reflect.Type).Key", "Type.Key: panics unless kind is Map", func(fr *Frame, st *State, recv *Val, args []*Val, pos token.Pos, resTy types.Type) *Val {
+		u := fr.u
+		tt := u.tagOfRtype(recv.T)
+		u.libpre(fr, st, "reflect.Type.Key", fmt.Sprintf("(= (kind %s) 21)", tt), pos, "reflect: Key of non-map type panics")
+		return term(u.rtypeOfTag(app("keyT", tt)), resTy)
 	})
 	regI("(reflect.Type).String", "Type.String: total, uninterpreted", func(fr *Frame, st *State, recv *Val, args []*Val, pos token.Pos, resTy types.Type) *Val {
 		u := fr.u
